@@ -25,6 +25,8 @@ func writeHistoOutput(writer *termrenderers.HistoWriter, counter *aggregation.Ma
 			line++
 		}
 	}
+	// fewer lines than an earlier refresh wrote (a count fell below atLeast): those lines are not in use any more
+	writer.ClearFrom(line)
 }
 
 func histoFunction(c *cli.Context) error {
